@@ -66,7 +66,7 @@ class Run:
             env.update(env_extra)
         try:
             p = subprocess.run([binary, driver] + [str(a) for a in args], cwd=self.work,
-                               capture_output=True, text=True, timeout=timeout, env=env)
+                               capture_output=True, text=True, errors="replace", timeout=timeout, env=env)
         except subprocess.TimeoutExpired:
             raise Infra("harness %s timed out after %ds" % (driver, timeout))
         summary = None
